@@ -58,7 +58,10 @@ def run(ctx):
             fr = geom.Frame(2, 1.0, float(tx), float(ty), rnd.randint(0, 5))
             want = [m['box'][0] + tx, m['box'][1] + tx, m['box'][2] + ty, m['box'][3] + ty]
             try:
-                region = geom.build(s, fr)
+                if n % 4 == 2:
+                    region = geom.build_via_assign(s, fr, lambda r: r.bounding_box)      # other parameters first, box asked once, then assigned
+                else:
+                    region = geom.build(s, fr)
                 got = real_box(region)
                 mb = mask_box(region)
             except Exception as ex:
